@@ -42,9 +42,13 @@ STATEVAR = "pyscript.vfon"     # state variable named in every task.wait_until e
                                # expressions that name a state variable); set to '1' before the integration starts
 UNDEF = "<undef>"
 D0 = 3                         # depth budget of an entry point (ContextsCore!D0)
-UNIT = 2.0 ** -20              # one model time unit in seconds: sleeps are multiples of 1024 units (about 1 ms), every
-                               # trigger function starts with its own sleep of k units, so no two evaluators ever wake at
-                               # the same instant (sums of binary fractions are exact)
+UNIT = 2.0 ** -12              # one model time unit in seconds (about 0.24 ms): sleeps and wait_until timeouts are multiples of 1024
+                               # units, every trigger function starts with its own sleep of k units and every job with its own
+                               # 16 * 2**i, so no two evaluators ever wake at the same instant (sums of binary fractions are exact).
+                               # The unit is far above one microsecond: the decorator manager implements the timeout of task.wait_until
+                               # as a time trigger on datetimes (microsecond resolution), so a timed-out evaluator resumes up to a
+                               # microsecond off per timeout - the order of resumptions must not depend on that
+WAIT = 50000.0                 # virtual seconds the driver waits for all evaluators to finish (virtual time costs nothing)
 
 
 # ---------------------------------------------------------------------------------------------
@@ -479,7 +483,7 @@ def run_program(prog):
         import asyncio
         for e in prog["events"]:            # one burst: the triggered functions run as concurrent evaluators
             w.hass.bus.async_fire(e)
-        await asyncio.sleep(30)             # virtual time: every sleeping evaluator finishes
+        await asyncio.sleep(WAIT)           # virtual time: every sleeping evaluator finishes
         await w.settle()
         recs = w.take()
         mods = {id(g.module): n for n, g in GlobalContextMgr.contexts.items() if g.module is not None}
@@ -699,6 +703,14 @@ def validate(ctx, cases, label, report=True, split=1):
             if rj["clause"].startswith("machine:"):
                 raise MachineryFailure("generator produced a program outside the machine's domain (%s): %s" % (rj["clause"], c["id"]))
             sig = {"clause": rj["clause"], "explained": rj["why"] != ["unexplained"], "why": "+".join(rj["why"]) or "none"}
+            if rj["clause"] == "log" and (rj.get("exp") or rj["logpos"] <= len(c["obs"]["log"])):
+                # where the first differing observation was made (from its tag): kind of code . kind of observation
+                t = (rj["exp"][0]["tag"] if rj.get("exp") else c["obs"]["log"][rj["logpos"] - 1]["tag"]).split(".")
+                code = "file-level" if len(t) < 3 else "job" if t[1] in JOBS else "closure" if t[1][1:] in DECOS and t[1][0] == "w" else \
+                    "decorator" if t[1] in DECOS else "trigger-function" if t[1][0] == "t" and t[1][1:].isdigit() else "function"
+                kind = {"gc": "get_global_ctx", "lc": "list_global_ctx", "wx": "wait_until-expression", "r": "read", "ra": "read-through-module",
+                        "t": "call-outcome"}.get(t[-1].rstrip("0123456789"), "observation")
+                sig["at"] = code + "." + kind
             for fl in rj["why"]:
                 sig[fl] = True
             if c["masked"]:
